@@ -96,7 +96,7 @@ class C16(Prop):
             yield {"k": "align", "what": "clifford2" if t % 4 else "pair", "n": 2 if t % 8 else 1, "seed": base + 5000 + t, "pkg": "py"}
         yield {"k": "birthday", "n": 3, "M": 6000, "seed": base + 9}
         yield {"k": "bigbirthday", "n": 5, "M": 200000, "seed": base + 10, "pkg": "py"}
-        yield {"k": "rowmarginal", "n": 500, "maps": 16 if thorough else 10, "seed": base + 11, "pkg": "py"}
+        yield {"k": "rowmarginal", "n": 500, "maps": 80 if thorough else 40, "seed": base + 11, "pkg": "py"}
         # larger registers: the image of X_1 / Z_1 under a uniform Clifford is a uniform non-identity string, so every
         # letter appears on every qubit in a quarter of the samples (up to 4^-N); per-qubit letter tallies
         for n in (7, 33, 40, 66):
@@ -203,10 +203,11 @@ class C16(Prop):
                 return [{"op": "marginal", "name": scn["name"], "n": n, "M": M, "cnt": cnt, "exact": bool(scn.get("exact"))},
                         {"op": "fair", "name": "random_clifford_map signs n=%d" % n, "c0": signs[0], "c1": signs[1]}]
             if k == "rowmarginal":
-                be.seed(scn["seed"])
                 n = scn["n"]
                 cnt = []
                 for t in range(scn["maps"]):
+                    if t % 8 == 0:
+                        be.seed((scn["seed"] * 7919 + 104729 * (t + 1)) % (2 ** 31 - 1))      # several well-separated streams
                     gs = be.utils.random_clifford(n)
                     for q in (0, n // 2, n - 1):
                         x, z = gs[:, 2 * q], gs[:, 2 * q + 1]
